@@ -134,6 +134,8 @@ def check(F, rep, tier):
     san_calls = {(mir.callee(t) or "").rsplit("::", 1)[-1] for bi, t in sv.calls() if "utils::sanitize::Sanitizer::" in (mir.callee(t) or "")}
     if san_calls == {"uint", "semver_str"}: rep.ok("R06.8", "SemVer conversion uses the uint and semver_str sanitisers", nontrivial_key="ssan")
     else: rep.bad("R06.8", "semver-sanitisers", "SemVer conversion builds sanitisers %s, expected {uint, semver_str}" % sorted(san_calls), sv.where())
+    import tables as _t
+    _t.sanitizer_presets(F, rep, "R06.8", ("semver_str", "pep440_local_str", "uint", "key"))
     return core.finish(rep, explanation=EXPL, assumptions=ASSUME, trusted=TRUST)
 
 EXPL = ("Structural clauses of the placement rules read from the MIR of the two From<Zerv> impls and the presets: sections are fed to their processors in schema order; SemVer core slots 0/1/2 are major/minor/patch under count < 3 and the rest "
